@@ -488,7 +488,9 @@ func c05ParseStatic(c *Ctx, b []byte, variant int) bool {
 	in := append([]byte(nil), b...)
 	var r *gtfs.Static
 	var err error
-	if !guardSig(c, "ParseStatic", func() { r, err = gtfs.ParseStatic(in, gtfs.ParseStaticOptions{InheritWheelchairBoarding: variant == 1}) }) {
+	if !guardSig(c, "ParseStatic", func() {
+		r, err = gtfs.ParseStatic(in, gtfs.ParseStaticOptions{InheritWheelchairBoarding: variant == 1})
+	}) {
 		return false
 	}
 	c.Steps(1)
